@@ -318,6 +318,26 @@ theorem circuit_unitary_of_vocabulary {I : R} (hI : ImagUnit I) (n : Nat) (prog 
     exact ⟨compile_wf n _ op hgo, compile_isUnitary n _ op hgo (vocab_isUnitaryEntry hI v (hp v hv))⟩
   exact toUnitary_unitary c (fun op hop => (key op hop).1) (fun op hop => (key op hop).2)
 
+/-! ### the executed carriers -/
+
+/-- `GInt.I` and `QI.I` (what the driver passes as the imaginary unit) are imaginary units -/
+theorem imagUnit_GInt : ImagUnit GInt.I := ⟨GInt.I_mul_I, GInt.star_I⟩
+theorem imagUnit_QI : ImagUnit QI.I := ⟨QI.I_mul_I, QI.star_I⟩
+
+/-- **what the driver computes**: every vocabulary program over `ℚ[i]` (exact rational cosine/sine pairs) resolved by the
+index resolution has a unitary `to_unitary` -/
+theorem circuit_unitary_of_vocabulary_QI (n : Nat) (prog : List (Vocab QI)) (hp : ∀ v ∈ prog, ∀ p ∈ v.pairs, p.Valid)
+    (c : List (Op n QI)) (hc : compileCircuit n (prog.map (Vocab.toRaw QI.I)) = some c) :
+    Matrix.of (toUnitary c) ∈ unitaryGroup (Bits n) QI :=
+  circuit_unitary_of_vocabulary imagUnit_QI n prog hp c hc
+
+/-- over `ℚ[i]` an imaginary unit **and** non-trivial valid pairs exist together (angle with cos = 3/5, sin = 4/5) -/
+example : ImagUnit QI.I ∧ (⟨⟨3/5, 0⟩, ⟨4/5, 0⟩⟩ : CS QI).Valid := by
+  refine ⟨imagUnit_QI, ⟨?_, ?_, ?_⟩⟩
+  · apply QI.ext' <;> simp [star]
+  · apply QI.ext' <;> simp [star]
+  · apply QI.ext' <;> simp <;> norm_num
+
 /-! ### the hypotheses are satisfiable -/
 
 /-- `ℂ` with `Complex.I` -/
